@@ -87,11 +87,15 @@ func checkC02(c RoutingCase) (vs []*Violation) {
 	nontrivial := false
 	labels := []string{"router_" + c.Router, "via_" + via}
 	for i, req := range c.Reqs {
-		harness.SetTraceOff(c.Extra["trace_off_nil"] == 1 && i > 0) // from the second request on tracing had been on before
+		// from the second request on tracing is still on from the previous iteration, and
+		// TraceLogger(nil) is what switches it off (a configuration history)
+		harness.SetTraceOff(c.Extra["trace_off_nil"] == 1 && i > 0)
 		o := harness.Do(ct, rec, req, via, strconv.Itoa(i))
 		harness.SetTrace(true)
 		ot := harness.Do(ct, rec, req, via, strconv.Itoa(i)+"t")
-		harness.SetTrace(false)
+		if c.Extra["trace_off_nil"] != 1 || i == len(c.Reqs)-1 {
+			harness.SetTrace(false)
+		}
 		if muxAnswered(via, o) {
 			labels = append(labels, "answered_by_net_http_mux")
 			continue
